@@ -30,6 +30,8 @@ class ExportConfigRust(ExportConfig):
     
     def _parse_scalar(self, param, value):
         if isinstance(param, StringType):
+            # backslash and double quote must be escaped inside a Rust string literal
+            value = str(value).replace("\\","\\\\").replace("\"","\\\"")
             value = f"\"{value}\""
         elif isinstance(param, BooleanType):
             value = "true" if value else "false"
